@@ -8,7 +8,7 @@ import re
 from ..cfg import build_cfg, calls_in, node_calls
 from ..core import Ctx, property_info, rule, share
 from ..model import AnalysisError, FuncInfo, walk_no_nested
-from ..q import L, call_name_of, control_deps, flows, forms, A, MUTATORS, asrc, is_self_attr, kwarg, names_in, root_name, stores, unparse
+from ..q import polar_forms, L, call_name_of, control_deps, flows, forms, A, MUTATORS, asrc, is_self_attr, kwarg, names_in, root_name, stores, unparse
 from ..state import CONSTRUCTION, Site, collect_sites, defaultdict_attrs, persistent_classes, self_reads, value_mutated_after
 from .c03 import who_may_write_map
 
@@ -141,6 +141,27 @@ def _marker_obligations(ctx: Ctx) -> None:
         n = glm.node_of(st)
         leaves = [leaf for leaf, _ in flows(lm, n, v)] if n is not None and v is not None else []
         ok = bool(leaves)
+        SRC = r"self\.xsi_cache(\[_\]|\.get\(_(,[^()]*)?\))"
+        # loop form: `kept = []; for c in <old entry>: if c is not clazz: kept.append(c)`
+        if leaves and all(isinstance(leaf, ast.List) and not leaf.elts for leaf in leaves) and isinstance(v, ast.Name):
+            apps = [(m, c) for m in glm.stmts() for c in node_calls(m) if isinstance(c.func, ast.Attribute) and c.func.attr == "append" and isinstance(c.func.value, ast.Name) and c.func.value.id == v.id and len(c.args) == 1]
+            loops = [l for l in glm.nodes if l.kind == "for" and isinstance(l.ast.target, ast.Name)]
+            good = bool(apps)
+            for m, c in apps:
+                lp = next((l for l in loops if isinstance(c.args[0], ast.Name) and l.ast.target.id == c.args[0].id and m.id in glm.reachable([x for x, lab in glm.succ[l.id] if lab == "iter"], blocked=[l.id])), None)
+                item = c.args[0].id if isinstance(c.args[0], ast.Name) else "?"
+                want = {f"{item}isnotclazz", f"clazzisnot{item}", f"{item}!=clazz", f"clazz!={item}"}
+                keeps_others = False
+                for t in glm.nodes:
+                    if t.kind != "test" or t.ast is None:
+                        continue
+                    for pol in (True, False):
+                        if glm.only_if(m.id, t.id, pol):
+                            keeps_others = keeps_others or any(f.replace(" ", "") in want and (pol if same else not pol) for f, same in polar_forms(lm, t, t.ast, anon=False))
+                good = good and lp is not None and keeps_others and any(re.fullmatch(SRC, x) for x in forms(lm, lp, lp.ast.iter))
+            ctx.ob("local_names_match evicts exactly the unbindable class: the new entry is the old entry filtered by `is not clazz`", good, at=lm, node=st, construct="eviction filter",
+                   msg="the eviction drops other classes that share the qualified name: after one failing decode a shared context no longer finds a valid model by qname")
+            continue
         for leaf in leaves:
             comp_ok = isinstance(leaf, ast.ListComp) and len(leaf.generators) == 1 and bool(leaf.generators[0].ifs) and any(
                 isinstance(c, ast.Compare) and isinstance(c.ops[0], (ast.IsNot, ast.NotEq)) and "clazz" in {unparse(c.left), unparse(c.comparators[0])} for c in leaf.generators[0].ifs)
@@ -306,8 +327,14 @@ def recorder_isolation(ctx: Ctx) -> None:
     gnp = build_cfg(np_.node)
     test_ids = {id(x) for t in gnp.nodes if t.kind == "test" for x in ast.walk(t.ast)}
     parse_args = {id(a) for c in calls_in(np_.node) if call_name_of(c) == "parse" for a in [*c.args, *[k.value for k in c.keywords]]}
-    rebinding = {id(v) for st, tgt, v in stores(np_.node) if isinstance(tgt, ast.Name) and tgt.id == "ns_map" and v is not None}
-    uses = [x for x in walk_no_nested(np_.node) if (isinstance(x, ast.Name) and x.id == "ns_map" and isinstance(x.ctx, ast.Load)) or (is_self_attr(x, "ns_map") and isinstance(x.ctx, ast.Load))]
+    # locals that carry the recorder: ns_map itself and every local assigned from it / from self.ns_map (plain copies of the reference)
+    carriers = {"ns_map"}
+    for _ in range(3):
+        for st, tgt, v in stores(np_.node):
+            if isinstance(tgt, ast.Name) and v is not None and ((isinstance(v, ast.Name) and v.id in carriers) or is_self_attr(v, "ns_map")):
+                carriers.add(tgt.id)
+    rebinding = {id(v) for st, tgt, v in stores(np_.node) if isinstance(tgt, ast.Name) and tgt.id in carriers and v is not None}
+    uses = [x for x in walk_no_nested(np_.node) if (isinstance(x, ast.Name) and x.id in carriers and isinstance(x.ctx, ast.Load)) or (is_self_attr(x, "ns_map") and isinstance(x.ctx, ast.Load))]
     ok = bool(parse_args) and bool(uses) and all(id(x) in test_ids or id(x) in parse_args or id(x) in rebinding for x in uses)
     ctx.ob("NodeParser.parse passes the recorder only to handler.parse", ok, at=np_, construct="recorder hand-off", msg="recorder reaches other code")
     # the native handler builds each element's in-scope map from the parent node's map + the element's own declarations (never from the recorder)
